@@ -124,7 +124,9 @@ impl Report {
             unlisted += 1;
             let path = write_replay(self.prop, sig, &vs[0]);
             viol_lines.push(format!("VIOLATION property={} replay={}", self.prop, path));
-            eprintln!("  [{}] {} ({} cases) e.g. {}", self.prop, sig, vs.len(), vs[0].what);
+            if unlisted <= 40 {
+                eprintln!("  [{}] {} ({} cases) e.g. {}", self.prop, sig, vs.len(), vs[0].what);
+            }
             viol_summ.push(json!({"signature": sig, "cases": vs.len(), "example": vs[0].what, "replay": path}));
         }
         for k in known.iter().filter(|k| k.status == "open") {
@@ -189,8 +191,11 @@ impl Report {
         for (k, v) in &self.counters {
             println!("  {k} = {v}");
         }
-        for l in &viol_lines {
+        for l in viol_lines.iter().take(40) {
             println!("{l}");
+        }
+        if viol_lines.len() > 40 {
+            println!("({} more violation groups; all of them are in the evidence file)", viol_lines.len() - 40);
         }
         if unlisted > 0 {
             1
